@@ -37,9 +37,9 @@ def main():
         return 0
 
     # 1. build
-    b = vlib.build(log=os.path.join(vlib.OUT, pid + ".build.log"))
-    needed = set(mod.COQ_DEPS)
-    broken_units = [f for f in b["failed"] if f in needed]
+    b = vlib.build(log=os.path.join(vlib.OUT, pid + ".build.log"), prop_id=pid)
+    needed = set(mod.COQ_DEPS)            # (kept for the record; what counts is computed from the dependency graph)
+    broken_units = list(b["failed_props"])
     gen_failed = {k: v for k, v in b["gen"].items() if isinstance(v, str) and v.startswith("FAILED") and ("gen/" + k) in " ".join(needed) or k == "_extract" or k == "error"}
     # 2. proofs
     pr = vlib.compile_props(pid) if not broken_units else {"ok": False, "theorems": [], "error": "dependencies failed to build: %s" % broken_units, "stated": []}
@@ -48,7 +48,7 @@ def main():
         pr = dict(pr, ok=False, error="development is not clean (admitted proof / declared axiom / disabled check): %s" % dirty[:10])
     bad_axioms = [t for t in pr["theorems"] if not vlib.axioms_ok(t)]
     proofs_ok = pr["ok"] and not bad_axioms and len(pr["theorems"]) == len(pr.get("stated", [])) and len(pr["theorems"]) > 0
-    model_ok = b["driver_ok"] and not [f for f in b["failed"] if f in set(mod.MODEL_DEPS)]
+    model_ok = b["driver_ok"] and not b["failed_model"]
 
     known = [k for k in vlib.load_known() if k["property"] == pid and k.get("status") == "known"]
     ctx = vlib_ctx = Ctx(pid, tier, seed, rng, known, model_ok)
